@@ -255,7 +255,7 @@ def worker_main(argv):
 
 
 def extra(tier, seed, pool):
-    n = 640 if tier == "quick" else 6400
+    n = 640 if tier == "quick" else 3200
     cases_ = _collect_cases(seed, n)
     nchunks = 5
     chunks = [cases_[i::nchunks] for i in range(nchunks)]
@@ -263,7 +263,8 @@ def extra(tier, seed, pool):
     tmp = tempfile.mkdtemp(prefix="vk-c08-")
     procs = []
     try:
-        for hs in (1, 2, 3):
+        seeds = (1, 2, 3) if tier == "quick" else (1, 2, 3, 4, 5, 6, 7)
+        for hs in seeds:
             for i, ch in enumerate(chunks):
                 fin = os.path.join(tmp, f"in{i}.json")
                 if not os.path.exists(fin):
@@ -297,7 +298,7 @@ def extra(tier, seed, pool):
                         "subcheck": "hash_seed", "failure": "outcome_differs", "callee": None,
                         "detail": f"PYTHONHASHSEED=0 vs {hs}: {a[:600]} ... vs ... {b[:600]}"}]))
         return {"evaluations": compared, "fails": fails[:5], "harness_errors": herr[:3],
-                "coverage": {"hash_seed_cases": len(cases_), "hash_seeds": [0, 1, 2, 3],
+                "coverage": {"hash_seed_cases": len(cases_), "hash_seeds": [0] + list(seeds),
                              "hash_seed_comparisons": compared}}
     finally:
         import shutil
